@@ -1,5 +1,6 @@
 import ScyllaVerif.Model.Keyspace
 import ScyllaVerif.Proofs.Keyspace
+import ScyllaVerif.Proofs.KeyspaceCluster
 /-!
 # C20 — after USE keyspace succeeds, all requests run on connections in that keyspace
 
@@ -391,16 +392,32 @@ theorem cluster_success_means_all_acked (perShard : Bool) (target : Nat) (evs : 
   rw [← hks]
   exact (hc.pools n).res_ok t ht i (results_of_resp (hc.pools n) t ht hresp i hi hb)
 
-/-
-Full cluster-level statement, NOT proved (kept for the record; the per-pool form `published_has_keyspace`,
-`new_nodes_inherit` and `cluster_success_means_all_acked` are its proved parts):
+/-- **cluster_published_has_keyspace** — the property at session level. For every interleaving of
+`Session::use_keyspace` requests, their deliveries to the nodes' refillers (in any order), every pool / task /
+network event of every node, node addition and removal: if no two fan-outs overlapped (the documented usage)
+and the newest one, for keyspace `k`, has been answered Ok, then every published connection of every known node
+that is not broken has `k` set at the server — nodes added after the request included (`new_nodes_inherit`).
+It holds in every later state until the next request, hence for every later session request.
+The link (Proofs/KeyspaceCluster.lean, `CStrong`): a fan-out issues at most one pool request per node and is
+answered only after all of them, so non-overlapping fan-outs give non-overlapping requests in every pool, and
+the newest task of every pool known to the fan-out is the fan-out's. -/
+theorem cluster_published_has_keyspace (perShard : Bool) (target : Nat) (evs : List (CEv K)) :
+    let c := crun (Cluster.init perShard target : Cluster K) evs
+    c.overlap = false → ∀ F, c.fanouts.head? = some F → F.resp = some .ok →
+      ∀ n ∈ c.known, ∀ i ∈ (c.pools n).conns, ((c.pools n).net i).broken = false →
+        ((c.pools n).net i).serverKs = some F.ks := by
+  intro c hov F hF hr
+  obtain ⟨h1, h2, h3⟩ := cluster_run_invs perShard target evs
+  exact cluster_published h1 h2 (h3 hov) F hF hr
 
-  cluster_published_has_keyspace : c reachable → c.overlap = false → the newest fan-out F answered Ok →
-    ∀ n ∈ c.known, ∀ i ∈ (c.pools n).conns, ¬ broken → ((c.pools n).net i).serverKs = some F.ks
+/-- Under the same hypothesis no pool has seen two overlapping requests (so `published_has_keyspace` applies
+to each pool), whatever the answer of the newest fan-out. -/
+theorem cluster_no_pool_overlap (perShard : Bool) (target : Nat) (evs : List (CEv K)) :
+    let c := crun (Cluster.init perShard target : Cluster K) evs
+    c.overlap = false → ∀ n, (c.pools n).overlap = false := by
+  intro c hov
+  exact ((cluster_run_invs perShard target evs).2.2 hov).1
 
-What is missing is the link "no two fan-outs overlap ⇒ no two pool requests overlap in any pool, and the
-newest task of every known pool belongs to F (or the pool was created after F with F.ks)".
--/
 
 private def cevs : List (CEv Nat) :=
   [.addNode false 1, .pool 0 .refill, .pool 0 (.opened 0 none false), .useKs 5, .addNode false 1,
@@ -408,7 +425,7 @@ private def cevs : List (CEv Nat) :=
    .pool 1 .refill, .pool 1 (.opened 0 none false), .pool 1 (.ksSet 0 .ack)]
 
 example : let c := crun (Cluster.init false 1 : Cluster Nat) cevs
-    c.fanouts.map (·.resp) = [some .ok] ∧ c.known = [0, 1] ∧ (c.pools 1).currentKs = some 5 ∧
+    c.overlap = false ∧ c.fanouts.map (·.resp) = [some .ok] ∧ c.known = [0, 1] ∧ (c.pools 1).currentKs = some 5 ∧
     (c.pools 0).conns = [0] ∧ ((c.pools 0).net 0).serverKs = some 5 ∧
     (c.pools 1).conns = [0] ∧ ((c.pools 1).net 0).serverKs = some 5 := by decide
 
